@@ -35,6 +35,6 @@ func specCountT(args []string, i int) int {
 //@   loop @"range options.converters" invariant[C19] nothing-written-for-a-failed-target: forall(k, 0, rangeindex + 1, res(Transpile, k, 1) == nil && seq(Transpile, k) < seq(os_WriteFile, k) && res(os_WriteFile, k, 0) == nil)
 //@   loop @"range options.converters" invariant[C19] bytes-are-the-library-result: forall(k, 0, rangeindex + 1, arg(os_WriteFile, k, 1) == bytesOf(res(Transpile, k, 0)) && arg(Transpile, k, 1) == res(parseOptions, 0, 0).in)
 //@   loop @"range options.converters" invariant[C19] file-name-is-input-without-last-extension-plus-target-extension: forall(k, 0, rangeindex + 1, arg(os_WriteFile, k, 0) == res(path_filepath_Join, k, 0) && len(arg(path_filepath_Join, k, 0)) == 2 && arg(path_filepath_Join, k, 0)[0] == res(parseOptions, 0, 0).out && arg(path_filepath_Base, k, 0) == res(parseOptions, 0, 0).in && arg(path_filepath_Ext, k, 0) == res(parseOptions, 0, 0).in && arg(path_filepath_Join, k, 0)[1] == res(path_filepath_Base, k, 0)[0:len(res(path_filepath_Base, k, 0)) - len(res(path_filepath_Ext, k, 0))] + "." + res(Extension, k, 0))
-//@   ensures[C19] one-file-per-requested-target: calls(os_WriteFile) == len(res(parseOptions, 0, 0).converters) && calls(Transpile) == len(res(parseOptions, 0, 0).converters)
+//@   ensures[C19,C14] one-file-per-requested-target: calls(os_WriteFile) == len(res(parseOptions, 0, 0).converters) && calls(Transpile) == len(res(parseOptions, 0, 0).converters)
 //@   ensures[C19] every-write-succeeded-and-follows-a-successful-transpile: forall(k, 0, calls(os_WriteFile), res(Transpile, k, 1) == nil && res(os_WriteFile, k, 0) == nil && seq(Transpile, k) < seq(os_WriteFile, k))
-//@   ensures[C19] bytes-and-name: forall(k, 0, calls(os_WriteFile), arg(os_WriteFile, k, 1) == bytesOf(res(Transpile, k, 0)) && arg(os_WriteFile, k, 0) == res(path_filepath_Join, k, 0) && arg(path_filepath_Join, k, 0)[1] == res(path_filepath_Base, k, 0)[0:len(res(path_filepath_Base, k, 0)) - len(res(path_filepath_Ext, k, 0))] + "." + res(Extension, k, 0))
+//@   ensures[C19,C14] bytes-and-name: forall(k, 0, calls(os_WriteFile), arg(os_WriteFile, k, 1) == bytesOf(res(Transpile, k, 0)) && arg(os_WriteFile, k, 0) == res(path_filepath_Join, k, 0) && arg(path_filepath_Join, k, 0)[1] == res(path_filepath_Base, k, 0)[0:len(res(path_filepath_Base, k, 0)) - len(res(path_filepath_Ext, k, 0))] + "." + res(Extension, k, 0))
